@@ -26,6 +26,8 @@ type Ctx struct {
 
 	blockMemo map[*ssa.Function]bool
 	acqMemo   map[*ssa.Function]map[string]bool
+	aliasMemo *aliasGraph
+	errMemo   *errFlow
 }
 
 func NewCtx(p *load.Program, prop, tier string) *Ctx {
